@@ -2668,11 +2668,12 @@ class FileSet:
 
         # Python's standard regex module (re) cannot handle multiple groups
         # with the same name. Hence, we need to cover duplicated placeholders
-        # so that only the first of them does group capturing.
+        # so that only the first of them does group capturing. The others
+        # must repeat what the first one captured (a name that fills one
+        # placeholder with two values does not match the template).
         path_placeholders = re.findall(r"{(\w+)}", path)
-        # (the bare regex still needs parentheses, it might be an alternation)
         duplicated_placeholders = {
-            p: "(?:" + self._remove_group_capturing(p, placeholder[p]) + ")"
+            p: f"(?P={p})"
             for p in path_placeholders if path_placeholders.count(p) > 1
         }
 
